@@ -223,7 +223,8 @@ class Model:
             if all(join(parents[ns], cand[ns]) not in self.t[ns] for ns in parents):
                 self.classes.add('same-name-other-dir')
                 return cand
-        pool.append(nm)
+        if op.get('k') != 'bad':      # a refused call must not shift what later draws pick (twin runs, C14)
+            pool.append(nm)
         return nm
 
     def _fresh_names(self, op, isdir):
@@ -499,6 +500,23 @@ class Model:
         t = self.TARGETS[spec % len(self.TARGETS)]
         return t
 
+    TX_TAILS = ['.', '..', 'x', '..x', '.x', '...']
+    TX_HEADS = ['', '', 'a/', '/', '../', '.hidden/', 'p' * 100 + '/']
+
+    def target_of(self, op):
+        """'tx' = [n, tail, head, mid]: one long component of n filler bytes whose pieces (the writer has to split it between
+        SL entries) may end up being '.' or '..', optionally with dots in the middle and other components around it."""
+        tx = op.get('tx')
+        if not tx:
+            return self.target(op.get('tgt', 0))
+        n, tail, head, mid = (list(tx) + [0, 0, 0, 0])[:4]
+        body = 'q' * n
+        if mid % 3 == 1:
+            body = body[:n // 2] + '..' + body[n // 2:]
+        elif mid % 3 == 2:
+            body = '..' + body
+        return self.TX_HEADS[head % len(self.TX_HEADS)] + body + self.TX_TAILS[tail % len(self.TX_TAILS)] + ('/z' if mid % 2 else '')
+
     def op_add_sym(self, op):
         form = op.get('form', 0)
         has_udf = self.has['udf']
@@ -530,7 +548,7 @@ class Model:
         if (want & 4) and 'udf' not in parents:
             raise Skip('udf parent missing')
         nm = self._new_names(op, False, parents)
-        tgt = self.target(op.get('tgt', 0))
+        tgt = self.target_of(op)
         kw = {}
         paths = {}
         if want & 1:
@@ -1015,6 +1033,38 @@ class BadCatalogue:
             ('new/already-initialized', 'new', False, lambda op: ('new', {})),
         ]
 
+    def rows_late(self):
+        """Rows selected through `wx`: refusals of calls whose new record needs a Rock Ridge continuation area
+        (an allocation in a structure shared by the whole volume) - the refusal must give that back as well."""
+        return [
+            ('add_hard_link/dup-new+continuation', 'add_hard_link', True, self.long_rr(self.link_dup_new)),
+            ('add_hard_link/new-parent-missing+continuation', 'add_hard_link', True, self.long_rr(self.link_new_parent_missing)),
+            ('add_fp/dup-iso+continuation', 'add_fp', True, self.long_rr(self.add_dup('iso', False))),
+            ('add_fp/dup-joliet-after-iso+continuation', 'add_fp', True, self.long_rr(self.add_dup('jol', False))),
+            ('add_fp/dup-udf-after-iso-joliet+continuation', 'add_fp', True, self.long_rr(self.add_dup('udf', False))),
+            ('add_fp/parent-is-a-file+continuation', 'add_fp', True, self.long_rr(self.add_parent_is_file)),
+            ('add_directory/dup-iso+continuation', 'add_directory', True, self.long_rr(self.add_dup('iso', True))),
+            ('add_directory/dup-joliet-after-iso+continuation', 'add_directory', True, self.long_rr(self.add_dup('jol', True))),
+            ('add_directory/dup-udf-after-iso-joliet+continuation', 'add_directory', True, self.long_rr(self.add_dup('udf', True))),
+            ('add_symlink/dup-iso+continuation', 'add_symlink', True, self.long_rr(self.sym_dup('iso'))),
+            ('add_symlink/dup-udf-after-rr+continuation', 'add_symlink', True, self.long_rr(self.sym_dup('udf'))),
+        ]
+
+    def long_rr(self, builder):
+        def b(op):
+            if not self.m.rr:
+                raise Skip('needs Rock Ridge')
+            meth, kw = builder(op)
+            long_name = names.rr_name(op['n'], 4 + op.get('salt', 0) % 4, op.get('lead', 0), op.get('salt', 0))     # 180..251 characters
+            if 'rr_name' in kw:
+                kw['rr_name'] = long_name
+            elif 'rr_symlink_name' in kw:
+                kw['rr_symlink_name'] = long_name
+            else:
+                raise Skip('call carries no Rock Ridge name')
+            return meth, kw
+        return b
+
     # builders --------------------------------------------------------------
     def add_dup(self, ns, isdir):
         def b(op):
@@ -1430,7 +1480,11 @@ class BadCatalogue:
 def _op_bad(self, op):
     cat = BadCatalogue(self)
     rows = cat.rows()
-    name, meth, staged, builder = rows[op.get('w', 0) % len(rows)]
+    if op.get('wx') is not None:
+        extra = cat.rows_late()
+        name, meth, staged, builder = extra[op['wx'] % len(extra)]
+    else:
+        name, meth, staged, builder = rows[op.get('w', 0) % len(rows)]
     method, kw = builder(op)
     c = Call(method, kw, lambda: None)
     c.note = ('bad', name, staged)
@@ -1438,4 +1492,4 @@ def _op_bad(self, op):
 
 
 Model.op_bad = _op_bad
-N_BAD_ROWS = len(BadCatalogue(Model({'level': 1})).rows())
+N_BAD_ROWS = len(BadCatalogue(Model({'level': 1})).rows()) + len(BadCatalogue(Model({'level': 1})).rows_late())
